@@ -43,6 +43,8 @@ struct PairCfg {
     int cb_allow_alert_c = 0;
     unsigned client_ca_mask = 0xffffffff;  // default: trust the CA of the server's identity kind (set in build)
     bool client_trusts_server = true;
+    bool forge_server_cert = false;        // server presents a certificate whose issuer signature is invalid
+    bool forge_client_cert = false;
     std::string expected_name;
     int max_early_data = 0;
     int ems_c = 0, ems_s = 0;
